@@ -35,10 +35,13 @@ pub const BIG_SIZES: [u32; 9] = [65_535, 65_536, 65_537, 70_001, 131_072, 131_07
 /// With probability `weight`, one sample of the movie (table or fragment run) gets a size from
 /// `BIG_SIZES`; everything else about the movie is unchanged.
 /// Also, with probability 0.08, the last top-level box (when it is an mdat) is written with size 0,
-/// i.e. "to the end of the file".
+/// i.e. "to the end of the file"; with probability 0.03 the file is physically larger than 4 GiB
+/// (a top-level free box of about 4 or 5 GiB after ftyp, after the second box, or at the end).
 pub fn with_big_sample<S: Strategy<Value = Movie>>(s: S, weight: f64) -> impl Strategy<Value = Movie> {
-    (s, prop::bool::weighted(weight), any::<u16>(), 0usize..BIG_SIZES.len(), prop::bool::weighted(0.08)).prop_map(|(mut m, on, frac, cls, to_eof)| {
+    let huge = prop::option::weighted(0.03, (0u8..3, prop_oneof![Just((1u64 << 32) - 24), Just((1u64 << 32) - 16), Just(1u64 << 32), Just((1u64 << 32) + 1), Just(5u64 << 30)]));
+    (s, prop::bool::weighted(weight), any::<u16>(), 0usize..BIG_SIZES.len(), prop::bool::weighted(0.08), huge).prop_map(|(mut m, on, frac, cls, to_eof, huge)| {
         m.last_to_eof = to_eof;
+        m.huge = huge;
         if on {
             let mut slots: Vec<(usize, usize, usize)> = Vec::new(); // (0, track, sample) | (1 + frag, traf, sample)
             for (ti, t) in m.tracks.iter().enumerate() {
@@ -266,6 +269,7 @@ pub fn movie_shell(tracks: Vec<Track>) -> Movie {
         hdlr_name: None,
         moov_meta: None,
         frag_mdhd_dur: 0,
+        huge: None,
     }
 }
 
